@@ -21,6 +21,10 @@ TNext ==
             /\ Fanout(r.d)
             /\ IF \E c \in 1..n : r.got[c] # <<r.d>> THEN Fail("EveryChildGetsEveryCallOnce")
                ELSE IF r.order # order' THEN Fail("ChildrenInOrder") ELSE TRUE
+       [] r.e = "conc" ->
+            (* the same calls made from several goroutines at once: every child still got each of them once *)
+            /\ UNCHANGED mvars
+            /\ IF \E c \in 1..Len(r.got) : r.got[c][1] # r.want \/ r.got[c][2] # r.want THEN Fail("EveryChildGetsEveryCallOnce:concurrent-callers") ELSE TRUE
        [] OTHER -> UNCHANGED mvars
   /\ l' = l + 1
 TraceSpec == TInit /\ [][TNext]_<<mvars, l>>
